@@ -138,6 +138,41 @@ let check_reply_out opidx (c : int) (pkt : n list) (reqauth : n list) (reqid : i
         (List.exists (fun (t, _, v) -> t = 101 && List.map int_of_n v = [ 0; 0; 1; 150 ]) (attr_list pkt)) "Error-Cause must be 406, big-endian"
   end
 
+(* hidden attributes of a packet, in order: Tunnel-Password values and MS-MPPE key sub-attribute values *)
+let hidden_attrs (b : n list) : (string * n list) list =
+  List.concat_map (fun (t, _, v) ->
+      if t = 69 then [ ("tunnel", v) ]
+      else if t = 26 && List.length v > 4 && List.map int_of_n (List.filteri (fun i _ -> i < 4) v) = [ 0; 0; 1; 55 ] then begin
+        (* walk the sub-attributes *)
+        let rec walk l acc = match l with
+          | st :: sl :: rest when int_of_n sl >= 2 && List.length rest >= int_of_n sl - 2 ->
+              let vl = int_of_n sl - 2 in
+              let sv = List.filteri (fun i _ -> i < vl) rest and tl = List.filteri (fun i _ -> i >= vl) rest in
+              walk tl (if int_of_n st = 16 || int_of_n st = 17 then ("mppe", sv) :: acc else acc)
+          | _ -> List.rev acc in
+        walk (List.filteri (fun i _ -> i >= 4) v) []
+      end else []) (attr_list b)
+
+let drop k l = List.filteri (fun i _ -> i >= k) l
+let take k l = List.filteri (fun i _ -> i < k) l
+
+(* C03 for a delivered reply: every hidden attribute decrypts for the client to what the server encrypted *)
+let check_hidden opidx (sent : n list) (delivered : n list) ~ssecret ~sauth ~csecret ~cauth =
+  if wf_packet sent && wf_packet delivered then begin
+    let hs = hidden_attrs sent and hd = hidden_attrs delivered in
+    let code = match delivered with c :: _ -> int_of_n c | [] -> 0 in
+    let hs = List.filter (fun (k, _) -> k <> "tunnel" || code = 2) hs and hd = List.filter (fun (k, _) -> k <> "tunnel" || code = 2) hd in
+    if List.length hs = List.length hd then
+      List.iter2 (fun (k, v) (k', v') ->
+          if k = k' then begin
+            let plain_s, plain_c =
+              if k = "tunnel" then
+                (rfc_dec md5 ssecret (sauth @ take 2 (drop 1 v)) (drop 3 v), rfc_dec md5 csecret (cauth @ take 2 (drop 1 v')) (drop 3 v'))
+              else (rfc_dec md5 ssecret (sauth @ take 2 v) (drop 2 v), rfc_dec md5 csecret (cauth @ take 2 v') (drop 2 v')) in
+            spec opidx "C03_reply_hidden" (plain_s = plain_c) (Printf.sprintf "%s len=%d" k (List.length v))
+          end) hs hd
+  end
+
 let impl_events (impl_all : string list list) (kind : string) : string list list =
   List.filter_map (function k :: rest when k = kind -> Some rest | _ -> None) impl_all
 
@@ -170,7 +205,12 @@ let do_reply opidx impl_all s srv now rnd (pkt : n list) =
            List.iter (function
                | [ cl; p ] ->
                    spec opidx "C02_to_originator" (Some (nat_of_int (int_of_string cl)) = r.rq_from) "";
-                   check_reply_out opidx (int_of_string cl) (bytes_of_hex p) r.rq_rqauth (int_of_n r.rq_rqid)
+                   check_reply_out opidx (int_of_string cl) (bytes_of_hex p) r.rq_rqauth (int_of_n r.rq_rqid);
+                   (match r.rq_buf, List.assoc_opt (int_of_string cl) !clients with
+                    | Some fb, Some cc ->
+                        check_hidden opidx pkt (bytes_of_hex p) ~ssecret:(List.assoc srv !servers).sc_secret ~sauth:(take 16 (drop 4 fb))
+                          ~csecret:cc.cc_secret ~cauth:r.rq_rqauth
+                    | _ -> ())
                | _ -> ()) (impl_events impl_all "reply")
        | None -> ())
    | None -> spec opidx "C04_no_delivery_without_request" (impl_events impl_all "reply" = []) "");
